@@ -183,7 +183,8 @@ func main() {
 	known := loadFindings()
 	exit := 0
 	nviol := 0
-	os.MkdirAll(filepath.Join(verifDir, "replays"), 0o755)
+	replayDir := envOr("VERIF_REPLAY_DIR", filepath.Join(verifDir, "replays"))
+	os.MkdirAll(replayDir, 0o755)
 	var knownHit []string
 	for _, r := range results {
 		for _, v := range r.Violations {
@@ -194,7 +195,7 @@ func main() {
 				continue
 			}
 			nviol++
-			rp := filepath.Join(verifDir, "replays", fmt.Sprintf("%s-%s.json", p.ID, sanitize(v.Sig)))
+			rp := filepath.Join(replayDir, fmt.Sprintf("%s-%s.json", p.ID, sanitize(v.Sig)))
 			wb, _ := json.MarshalIndent(map[string]any{
 				"property": p.ID, "unit": r.Extra["unit"], "check": r.Check, "sig": v.Sig, "msg": v.Msg,
 				"seed": seed, "tier": *tier, "count": v.Count, "replay": v.Replay,
@@ -398,7 +399,7 @@ func runUnit(p Prop, u Unit, scratch, out, tier string, seed int64, replay strin
 	os.MkdirAll(tmp, 0o755)
 	env = append(env, "GOFLAGS=", "GOPROXY=off", "GOSUMDB=off", "GOTOOLCHAIN=local",
 		"VERIF_OUT="+out, "VERIF_SEED="+strconv.FormatInt(seed, 10), "VERIF_TIER="+tier, "VERIF_DIR="+verifDir, "VERIF_REPO="+repoDir,
-		"VERIF_TMP="+tmp)
+		"VERIF_TMP="+tmp, "VERIF_REPLAY_DIR="+envOr("VERIF_REPLAY_DIR", filepath.Join(verifDir, "replays")))
 	if replay != "" {
 		env = append(env, "VERIF_REPLAY="+replay)
 	}
@@ -535,6 +536,7 @@ func writeEvidence(p Prop, tier string, seed int64, results []rtResult, inconc [
 		"violations":  nviol,
 	}
 	b, _ := json.MarshalIndent(e, "", " ")
-	os.MkdirAll(filepath.Join(verifDir, "evidence"), 0o755)
-	os.WriteFile(filepath.Join(verifDir, "evidence", p.ID+".json"), b, 0o644)
+	edir := envOr("VERIF_EVIDENCE_DIR", filepath.Join(verifDir, "evidence"))
+	os.MkdirAll(edir, 0o755)
+	os.WriteFile(filepath.Join(edir, p.ID+".json"), b, 0o644)
 }
